@@ -550,7 +550,11 @@ func (builder *builder[E]) IsZero(i1 frontend.Variable) frontend.Variable {
 	}
 
 	// m = -a*x + 1         // constrain m to be 1 if a == 0
-	c1 := builder.cs.AddR1C(builder.newR1C(builder.Neg(a), x[0], builder.Sub(m, 1)), builder.genericGate)
+	// m is not solved at this point: m - 1 is built directly, as builder.Sub may
+	// compress it into a new constraint with two unsolved wires (m and the
+	// compressed variable) when the compress threshold is small.
+	mMinusOne := append(builder.negateLinExp(builder.cstOne()), m...)
+	c1 := builder.cs.AddR1C(builder.newR1C(builder.Neg(a), x[0], mMinusOne), builder.genericGate)
 
 	// a * m = 0            // constrain m to be 0 if a != 0
 	c2 := builder.cs.AddR1C(builder.newR1C(a, m, builder.cstZero()), builder.genericGate)
